@@ -2,7 +2,7 @@
    operations, TreeWF*.v) implies Canonical; hence WF trees with the same route
    set are equal. *)
 From FoxBase Require Import Bytes.
-From FoxRoute Require Import Node Tree WFDef Canon.
+From FoxRoute Require Import Node Tree WFDef TreeMap Canon.
 From Coq Require Import Sorting.Sorted Sorting.Permutation Lia.
 Open Scope char_scope.
 
@@ -183,3 +183,36 @@ Qed.
 
 Example WF_bridge_ex : Canonical (nth 0 (t_roots ex_txn1) (empty_root [])).
 Proof. apply WF_root_Canonical, wf_rootb_spec. vm_compute. reflexivity. Qed.
+
+(* ---------- history independence of the tree shape (uses the WF preservation theorems of TreeMap.v) ---------- *)
+(* states reachable from the empty router by the model's operations (failed operations leave the state unchanged) *)
+Inductive CReach : txn -> Prop :=
+| CR_empty : CReach empty_txn
+| CR_insert t m ri t' : CReach t -> valid_rinfo ri -> insert t m ri = ROk t' -> CReach t'
+| CR_update t m ri t' : CReach t -> rpat (ri_route ri) <> [] -> update t m ri = ROk t' -> CReach t'
+| CR_remove t m p t' r : CReach t -> p <> [] -> remove t m p = DOk t' r -> CReach t'
+| CR_truncate t ms : CReach t -> CReach (truncate t ms).
+
+Lemma CReach_WF t : CReach t -> WF_txn t.
+Proof.
+  induction 1; eauto using WF_empty, WF_insert, WF_update, WF_remove, WF_truncate.
+Qed.
+
+Theorem CReach_canonical t : CReach t -> CanonRoots (t_roots t).
+Proof. intros H. apply WF_roots_CanonRoots, (CReach_WF t H). Qed.
+
+Theorem insert_canonical t m ri t' :
+  WF_txn t -> valid_rinfo ri -> insert t m ri = ROk t' -> CanonRoots (t_roots t').
+Proof. intros Hw Hv E. apply WF_roots_CanonRoots, (WF_insert t m ri t' Hw Hv E). Qed.
+
+Theorem remove_canonical t m p t' r :
+  WF_txn t -> p <> [] -> remove t m p = DOk t' r -> CanonRoots (t_roots t').
+Proof. intros Hw Hv E. apply WF_roots_CanonRoots, (WF_remove t m p t' r Hw Hv E). Qed.
+
+(* any two histories that end with the same registered set end with the same trees *)
+Theorem shape_history_independent ta tb :
+  CReach ta -> CReach tb ->
+  seteq (routes_of_txn ta) (routes_of_txn tb) ->
+  firstn 4 (t_roots ta) = firstn 4 (t_roots tb) /\
+  Permutation (skipn 4 (t_roots ta)) (skipn 4 (t_roots tb)).
+Proof. intros Ha Hb. apply WF_txn_unique; apply CReach_WF; auto. Qed.
